@@ -220,7 +220,7 @@ func (g *Gen) pushManifest(repo string) {
 		ref = g.pick([]string{"sha256:?3", "bad:1", "bad:3", "sha256:c1"})
 		wrongRef = true
 	}
-	ct := g.pick([]string{"ocim", "ocim", "ocii", "dockm", "dockl", "", "", "other"})
+	ct := g.pick([]string{"ocim", "ocim", "ocii", "dockm", "dockl", "", "", "other", "ocimx", "json"})
 	if g.r.Intn(3) != 0 { // mostly the matching content type
 		switch kind {
 		case "image":
@@ -240,8 +240,8 @@ func (g *Gen) pushManifest(repo string) {
 		}
 	}
 	line := fmt.Sprintf("MPUT %s %s ct=%s", repo, ref, ct)
-	if ct != "" && g.r.Intn(8) == 0 {
-		line += " ctform=" + g.pick([]string{"param", "upper"})
+	if ct != "" && g.r.Intn(6) == 0 {
+		line += " ctform=" + g.pick([]string{"param", "upper", "dup", "semi", "space", "badparam"})
 	}
 	if wrongRef && g.r.Intn(2) == 0 {
 		// a digest reference that is not the body's digest, accompanied by a ?digest= that is: the reference is the declaration
@@ -249,8 +249,8 @@ func (g *Gen) pushManifest(repo string) {
 	} else if g.r.Intn(10) == 0 {
 		line += " qd=" + g.pick([]string{"sha256:" + name, "sha512:" + name, "sha256:?3", "bad:1"})
 	}
-	if g.profile == "limits" && g.r.Intn(2) == 0 {
-		line += " len=unknown"
+	if (g.profile == "limits" && g.r.Intn(2) == 0) || g.r.Intn(12) == 0 {
+		line += " len=unknown" // a body without a declared length (chunked transfer)
 	}
 	line += " body=" + name
 	out := g.emit(line)
@@ -866,6 +866,10 @@ func (g *Gen) refsStep() {
 		g.twinFirst(repo)
 		return
 	}
+	if g.r.Intn(14) == 0 {
+		g.filterBurst(repo)
+		return
+	}
 	switch g.r.Intn(14) {
 	case 0: // a subject
 		name := g.simpleImage(repo)
@@ -947,6 +951,9 @@ func (g *Gen) refsStep() {
 			cache := rest[:strings.Index(rest, ",page=")]
 			page := rest[strings.Index(rest, ",page=")+6:]
 			page = page[:strings.Index(page, ")")]
+			if i := strings.Index(page, ",at="); i >= 0 {
+				page = page[:i]
+			}
 			tr, tsj := repo, sj
 			switch g.r.Intn(10) {
 			case 0:
@@ -1009,6 +1016,51 @@ func (g *Gen) refsStep() {
 			}
 		}
 	}
+}
+
+// filterBurst: several artifacts of two artifact types on one subject, so that under a small response limit the filtered
+// list itself needs more than one page while entries of the other type sit between its entries; then the filtered listing
+// and its Link chain (the monitors follow the chain the registry hands out)
+func (g *Gen) filterBurst(repo string) {
+	sj := "sha256:?2"
+	if len(g.subjects) > 0 && g.r.Intn(2) == 0 {
+		sj = g.pick(g.subjects)
+	}
+	g.subjects = append(g.subjects, sj)
+	g.emit("UPOST " + repo + " digest=sha256:c1 body=c1")
+	k := 4 + g.r.Intn(4)
+	for i := 0; i < k; i++ {
+		at := []string{"x/a", "x/b"}[i%2]
+		if g.r.Intn(5) == 0 {
+			at = g.pick([]string{"x/a", "x/b", ""})
+		}
+		g.bodyN++
+		name := g.defBody("image", []string{"mt=ocim", "cfg=sha256:c1", "cfgmt=" + g.pick([]string{"cfg", "empty"}), "layers=", "subj=" + sj, "at=" + at, "ann=n=" + strconv.Itoa(g.bodyN)})
+		if out := g.emit(fmt.Sprintf("MPUT %s sha256:%s ct=ocim body=%s", repo, name, name)); strings.HasPrefix(out, "201 ") {
+			g.manIn[repo] = append(g.manIn[repo], name)
+			g.manMT[name] = "ocim"
+		}
+	}
+	for _, at := range []string{g.pick([]string{"x/a", "x/b"}), g.pick([]string{"x/a", "x/b", "cfg", "empty"})} {
+		line := fmt.Sprintf("REFS %s %s at=%s", repo, sj, at)
+		out := g.emit(line)
+		for hops := 0; hops < 6 && strings.Contains(out, "link=next(cache="); hops++ {
+			rest := out[strings.Index(out, "link=next(cache=")+len("link=next(cache="):]
+			cache := rest[:strings.Index(rest, ",page=")]
+			page := rest[strings.Index(rest, ",page=")+6:]
+			page = page[:strings.Index(page, ")")]
+			lat := ""
+			if i := strings.Index(page, ",at="); i >= 0 {
+				lat, page = page[i+4:], page[:i]
+			}
+			l2 := fmt.Sprintf("REFS %s %s", repo, sj)
+			if lat != "" { // the client follows the link as given
+				l2 += " at=" + lat
+			}
+			out = g.emit(l2 + " cache=" + cache + " page=" + page)
+		}
+	}
+	g.emit(fmt.Sprintf("REFS %s %s", repo, sj))
 }
 
 // twinSteps: the document `name` (a referrers response named by its structure) as a manifest of a client
